@@ -5,7 +5,7 @@ from heap_common import HeapSpec, PQSpec
 
 SPECS = {"deque": (DequeSpec(iterators=True), "harness", "runner"), "heap": (HeapSpec(iterators=True), "harness", "runner"), "pq": (PQSpec(iterators=True), "harness", "runner")}
 
-PROP_FILES = ["C15_deque", "C15_heap", "TranslatedDeque", "TranslatedHeap", "TranslatedPQ"]
+PROP_FILES = ["C15_deque", "C15_heap", "TranslatedDeque", "TranslatedHeap", "TranslatedPQ", "TranslatedDequeRun", "TranslatedHeapRun"]
 
 
 def run(ctx):
